@@ -220,7 +220,7 @@ class CallTarget:
 
 
 class Model:
-    def __init__(self, root: str = "/repo", overrides: Optional[dict] = None):
+    def __init__(self, root: str = "/repo", overrides: Optional[dict] = None, inline: bool = True):
         self.root = root
         self.overrides = overrides or {}
         self.modules: dict[str, ModuleInfo] = {}  # by short name
@@ -229,7 +229,40 @@ class Model:
         self.classes: dict[str, ClassInfo] = {}
         self.func_of_node: dict[int, FuncInfo] = {}
         self.docs: dict[str, str] = {}
+        self.inlined: list = []  # callers into which helpers new w.r.t. the pinned inventory were inlined
         self._load()
+        if inline:
+            self._inline_new_helpers()
+
+    def _inline_new_helpers(self):
+        """Normalisation (jtsa/inline.py): helpers that do not exist in the pinned tree are inlined
+        into their callers, then the model is re-indexed.  A no-op on the pinned tree."""
+        try:
+            from .inventory import FUNCTIONS
+        except ImportError:
+            return
+        from .inline import MAX_ROUNDS, inline_new_helpers
+
+        for _ in range(MAX_ROUNDS):
+            changed = inline_new_helpers(self, FUNCTIONS)
+            if not changed:
+                break
+            self.inlined += changed
+            self._reindex()
+
+    def _reindex(self):
+        self.functions.clear()
+        self.classes.clear()
+        self.func_of_node.clear()
+        self.__dict__.pop("_ic_cache", None)
+        for m in self.modules.values():
+            m.imports.clear()
+            m.functions.clear()
+            m.classes.clear()
+            m.assigns.clear()
+            m.assign_stmts.clear()
+        for m in self.modules.values():
+            self._index_module(m)
 
     # ------------------------------------------------------------------ load
     def read(self, relpath: str) -> Optional[str]:
